@@ -156,3 +156,32 @@ Proof.
   replace (- - (u + 8))%Z with (u + 8)%Z by lia. reflexivity.
 Qed.
 End Shortest.
+
+(* The hypothesis is not vacuous: its body holds at F = Amount(150000000).ToBCH() = 1.5 for the
+   text "1.5" that strconv prints there (m = 15, j = 1), including the minimality clause. *)
+Example shortest_spec_instance :
+  let F := to_bch 150000000 in
+  is_finite F = true /\
+  exists m j : Z, (0 <= m)%Z /\ (0 <= j)%Z /\
+    [49; 46; 53]%N = dec_text (Bsign F) m j /\
+    RN (IZR m / IZR (10 ^ j)) = Rabs (B2R F) /\
+    (j = 0 \/ m mod 10 <> 0)%Z /\
+    (forall m' j' : Z, (0 <= j')%Z -> RN (IZR m' / IZR (10 ^ j')) = Rabs (B2R F) -> (j <= j')%Z).
+Proof.
+  cbv zeta. destruct (to_bch_correct 150000000) as [Hv Hf]; [vm_compute; discriminate|].
+  split; [exact Hf|]. exists 15%Z, 1%Z.
+  assert (Hval : Rabs (B2R (to_bch 150000000)) = RN (IZR 15 / IZR (10 ^ 1))).
+  { rewrite Hv. change c_SatoshiPerBitcoin with 100000000%Z.
+    replace (IZR 150000000 / IZR 100000000) with (IZR 15 / IZR (10 ^ 1)) by (simpl; lra).
+    apply Rabs_pos_eq. rewrite <- RN_0. apply RN_le. simpl. lra. }
+  split; [lia|]. split; [lia|].
+  split; [vm_compute; reflexivity|].
+  split; [now rewrite Hval|].
+  split; [right; discriminate|].
+  intros m' j' Hj' Hback. destruct (Z.eq_dec j' 0) as [->|]; [exfalso|lia].
+  rewrite Hval in Hback.
+  assert (H : (m' * 10 ^ (1 - 0))%Z = 15%Z).
+  { apply (same_rounding_same_integer 15 (m' * 10 ^ (1 - 0)) 1); [vm_compute; discriminate|lia|].
+    rewrite ratio_scale by lia. exact Hback. }
+  change (10 ^ (1 - 0))%Z with 10%Z in H. lia.
+Qed.
